@@ -402,8 +402,8 @@ def build_twin(op, kw):
     import flowpaths as fp
     try:
         m = getattr(fp, op["cls"])(**kw)
-        m.solve()
-        return m
+        ret = m.solve()
+        return m, (bool(ret) if isinstance(ret, bool) else None)      # what solve() itself reported; no getter is called
     except Exception:
         return None
 
@@ -567,6 +567,7 @@ def run(ctx):
         steps = []
         before = init
         earlier = []                             # (step, class, model object, what its getters said at its step, is_twin)
+        tw_skipped = 0
         for op in ops:
             if op.get("refused"):
                 r = sh.extra[op["ridx"]]
@@ -583,8 +584,12 @@ def run(ctx):
                 earlier.append((len(steps), op["cls"], LAST_MODEL[0], res, False))
                 if op["sup"] or rng.random() < 0.3:  # a twin whose getters are first read after the later steps
                     tw = build_twin(op, kw)
-                    if tw is not None:
-                        earlier.append((len(steps), op["cls"], tw, res, True))
+                    if tw is not None and tw[1] is not None and tw[1] != bool(res["solved"]):
+                        # the identical second construction ended differently in solve() ALREADY (time limit under load / solver):
+                        # nothing a later step did; not comparable with the first model's answers
+                        tw_skipped += 1
+                    elif tw is not None:
+                        earlier.append((len(steps), op["cls"], tw[0], res, True))
             after = sh.snapshot()
             ext_grew = len(after["opts"].get(EXT_KEY, [])) != len(before["opts"].get(EXT_KEY, []))
             only_ext = ext_grew and {k: v for k, v in after["opts"].items() if k != EXT_KEY} == {k: v for k, v in before["opts"].items() if k != EXT_KEY} \
@@ -613,6 +618,8 @@ def run(ctx):
             mops.append([cid, passes, s["op"]["sup"], s["has_cons"], s["op"]["solve"], bool(s["op"].get("refused") and s["exc"])])
         reqs.append("effects " + common.toks(ext_open, EXT_KEY in init["opts"], len(init_keys), init_keys, len(ops), mops))
         hists.append((i, ops, init, steps, res_fresh, exc_fresh, late)); hist_sh[i] = sh
+        if tw_skipped:
+            ctx.count("solver_specification", "identical_twin_construction_solved_differently_at_once", tw_skipped)
     outs = ctx.model.run(reqs)
     for (i, ops, init, steps, res_fresh, exc_fresh, late), req, out in zip(hists, reqs, outs):
         classes = [o["cls"] for o in ops]
